@@ -33,15 +33,15 @@ CLAIMED['C18'] = dict(
    design_ref="5/C18")
 
 CLAIMED['C01'] = dict(
-   text="Kernel-checked END TO END for ALL strings, ALL tables with '?' and both values of attribute (props/C01.v: C01_valid_smiles, C01_valid_smiles_from_string): whenever fewer than 100 pairs of atoms are joined by ring bonds - in particular whenever the input has fewer than 100 ring symbols (proofs/RingCount.v: ring pairs <= ring symbols, so the hypotheses are on the input string alone) - the string the decoder model returns is accepted by the independent SMILES reader of spec/Reader.v and the molecule read from it is a simple graph in Kekule form in which every atom stays within the capacity the table gives its (element, charge) minus explicit H. Route (all by induction over unbounded inputs): valence / symmetry / forest invariants of the derivation and ring pass (DecoderInv, DecoderSum, DecoderTree); the two shapes of decoded atoms and read-back of their printed tokens incl. decimal print/parse (WriterAtoms, DecFacts); tokenisation of the printed string (WriterLex, WriterToks); simulation of the reader along the writer's traversal with ring labels paired through the ring log (WriterSim); validity of the molecule read (WriterFinal). The bound is sharp (99 five-rings valid, 100 not): at 100 ring bonds the writer prints %100 and the statement is REFUTED on the faithful model (known finding). Side condition symbols_short: no symbol longer than the interpreter's int() digit limit. State functions are regenerated from grammar_rules.py on every run; decoder model tied by exact-output correspondence (bounded-exhaustive + sampled, many tables, table histories); every implementation output is also judged by the extracted reader.",
+   text="Kernel-checked END TO END for ALL strings, ALL tables with '?' and both values of attribute (props/C01.v: C01_valid_smiles, C01_valid_smiles_from_string): whenever fewer than 100 pairs of atoms are joined by ring bonds - in particular whenever the input has fewer than 100 ring symbols (proofs/RingCount.v: ring pairs <= ring symbols, so the hypotheses are on the input string alone; both values of compatible, proofs/CompatTotal.v) - the string the decoder model returns is accepted by the independent SMILES reader of spec/Reader.v and the molecule read from it is a simple graph in Kekule form in which every atom stays within the capacity the table gives its (element, charge) minus explicit H. Route (all by induction over unbounded inputs): valence / symmetry / forest invariants of the derivation and ring pass (DecoderInv, DecoderSum, DecoderTree); the two shapes of decoded atoms and read-back of their printed tokens incl. decimal print/parse (WriterAtoms, DecFacts); tokenisation of the printed string (WriterLex, WriterToks); simulation of the reader along the writer's traversal with ring labels paired through the ring log (WriterSim); validity of the molecule read (WriterFinal). The bound is sharp (99 five-rings valid, 100 not): at 100 ring bonds the writer prints %100 and the statement is REFUTED on the faithful model (known finding). Side condition symbols_short: no symbol longer than the interpreter's int() digit limit. State functions are regenerated from grammar_rules.py on every run; decoder model tied by exact-output correspondence (bounded-exhaustive + sampled, many tables, table histories); every implementation output is also judged by the extracted reader.",
    technique="Coq proof, end to end (graph invariants + writer/reader simulation: valid_smiles_under T (decoder s) = true below 100 ring pairs) + refutation witness at the bound + exact correspondence of the decoder model + extracted independent-reader oracle",
    design_ref="5/C01")
 CLAIMED['C02'] = dict(
-   text="Proof (partial, props/C02.v), for all strings and tables: (1) what the independent reader reads from the decoder's output IS the decoder's graph - atoms with element / isotope / chirality / H / charge in written order, bonded pairs with their orders and cis/trans marks, neighbour order = parent then the entries of the row (C02_output_denotes_graph_partial; below 100 ring pairs); (2) every rejection is a DecoderError; strings whose symbols are all in the grammar and whose brackets are closed are accepted; a reached symbol outside the grammar is rejected; (3) every rule's arithmetic (atom, branch, ring; regenerated from source) and every symbol table (regenerated) equals the documented one; index code = documented base-16 code. Not a theorem: that this graph equals the documented derivation (C02_full_statement): checked per input by the extracted documented-grammar evaluator (spec/DocGrammar.v) against the molecule the independent reader reads from the implementation's output - bounded-exhaustive over a rule-covering symbol set and sampled.",
+   text="Proof (partial, props/C02.v), for all strings and tables: (1) what the independent reader reads from the decoder's output IS the decoder's graph - atoms with element / isotope / chirality / H / charge in written order, bonded pairs with their orders and cis/trans marks, neighbour order = parent then the entries of the row (C02_output_denotes_graph_partial; either flag; hypotheses on the input alone: symbols within the int() limit, fewer than 100 ring symbols); (2) every rejection is a DecoderError; strings whose symbols are all in the grammar and whose brackets are closed are accepted; a reached symbol outside the grammar is rejected; (3) every rule's arithmetic (atom, branch, ring; regenerated from source) and every symbol table (regenerated) equals the documented one; index code = documented base-16 code. Not a theorem: that this graph equals the documented derivation (C02_full_statement): checked per input by the extracted documented-grammar evaluator (spec/DocGrammar.v) against the molecule the independent reader reads from the implementation's output - bounded-exhaustive over a rule-covering symbol set and sampled.",
    technique="Coq proof (output denotes the decoder's graph; rejection clauses; rule/table equalities) + extracted documented-grammar evaluator and independent reader as oracle (bounded-exhaustive + sampled) + exact correspondence",
    design_ref="5/C02")
 CLAIMED['C08'] = dict(
-   text="Kernel-checked for ALL strings and ALL accepted tables (props/C08.v, proofs/DecoderInv.v): the decoder model (compatible=False, attribute on or off) returns a SMILES or raises DecoderError - no other exception class, no partial operation reached, fuel never exhausted - and a decode leaves the table in force untouched (history model). The statement excludes what the model does not exhibit and the implementation does: int() refusing more than 4300 digits and the interpreter's recursion limit (both known findings, classifiers in the check); compatible=True is covered by the correspondence only. Outcome classes of implementation and model are compared on malformed / arbitrary / long / nested inputs with all flag combinations.",
+   text="Kernel-checked for ALL strings and ALL accepted tables (props/C08.v, proofs/DecoderInv.v): the decoder model (both values of compatible - the legacy front end of compatibility.py is inside the theorem, proofs/CompatTotal.v - and attribute on or off) returns a SMILES or raises DecoderError - no other exception class, no partial operation reached, fuel never exhausted - and a decode leaves the table in force untouched (history model). The statement excludes what the model does not exhibit and the implementation does: int() refusing more than 4300 digits and the interpreter's recursion limit (both known findings, classifiers in the check). Outcome classes of implementation and model are compared on malformed / arbitrary / long / nested inputs with all flag combinations.",
    technique="Coq proof by invariant (crash-freedom of derivation, ring pass and writer on well-formed graphs) + outcome-class correspondence on malformed and arbitrary strings + known-finding classifiers",
    design_ref="5/C08")
 
